@@ -88,6 +88,7 @@ pcgstrf_thread_init(SuperMatrix *A, SuperMatrix *L, SuperMatrix *U,
     int_t  *ispruned;/* flag to indicate whether column j is pruned */
     int_t   nzlumax;
     pxgstrf_relax_t *pxgstrf_relax;
+    extern ExpHeader *cexpanders;
     
     nprocs     = options->nprocs;
     perm_c     = options->perm_c;
@@ -148,7 +149,18 @@ pcgstrf_thread_init(SuperMatrix *A, SuperMatrix *L, SuperMatrix *U,
 
     /* Allocate global storage common to all the factor routines */
     *info = pcgstrf_MemInit(n, Astore->nnz, options, L, U, &Glu);
-    if ( *info ) return NULL;
+    if ( *info ) {
+	/* Workspace query (lwork = -1) or failed allocation: nothing is going
+	   to be factorized, so give back what has been set up above. */
+	ParallelFinalize(pxgstrf_shared);
+	SUPERLU_FREE(inv_perm_r);
+	SUPERLU_FREE(inv_perm_c);
+	SUPERLU_FREE(xprune);
+	SUPERLU_FREE(ispruned);
+	SUPERLU_FREE(cexpanders);
+	cexpanders = 0;
+	return NULL;
+    }
     SLU_MT_VERIF_EVENT(SLU_EV_INIT, -1, n, sizeof(int_t), options, pxgstrf_shared);
 
     /* Prepare arguments to all threads. */
